@@ -69,11 +69,9 @@ _LOW = [0x00, 0x5a, 0xff]
 class Sim(object):
     """Real engine + byte model.  Ops are lists of small ints (see module docstring)."""
 
-    def __init__(self, expr_simp=None):
+    def __init__(self):
         self.engine = None
         self.stats = set()
-        self.forced_simp = expr_simp
-        self.canon_only = expr_simp is not None     # attribution run: no reliance on pointer normalisation
         self.last_mut = "init"
         self.last_value = None
         self.soft = {}                  # bucket -> detail of non-fatal discrepancies
@@ -114,12 +112,9 @@ class Sim(object):
         self.wid = 0
 
     def new_engine(self, state=None):
-        kw = {}
-        if self.forced_simp is not None:
-            kw["sb_expr_simp"] = self.forced_simp
         if state is None:
-            return self.SEE(self.lifter, **kw)
-        return self.SEE(self.lifter, state, **kw)
+            return self.SEE(self.lifter)
+        return self.SEE(self.lifter, state)
 
     def env_init(self, k):
         return Env(ids=self.idvals[k], key=k)
@@ -148,8 +143,6 @@ class Sim(object):
     def ptr(self, basekey, off, form=0):
         m = self.m
         n = self.asz
-        if self.canon_only:
-            form = 0
         if basekey == "int":
             if form == 1:
                 return m.ExprOp('+', m.ExprInt((off - 1) & self.mask, n), m.ExprInt(1, n))
@@ -659,14 +652,26 @@ def history_strategy(maxlen=30):
     return hist()
 
 
-def passfree_simp():
-    from miasm.expression.simplifications import ExpressionSimplifier
-    return ExpressionSimplifier()
+_rec = {}
 
 
-def run_ops(ops, simp=None):
+def recorder():
+    """instrument the engine's default simplifier once: every effective rewrite can be logged"""
+    if "rec" not in _rec:
+        from miasm.expression.simplifications import expr_simp_explicit
+        from vlib import simplab
+        rec = simplab.Recorder()
+        rec.enabled = False
+        simplab.instrument(expr_simp_explicit, rec)
+        _rec["rec"] = rec
+        _rec["simp"] = expr_simp_explicit
+    return _rec["rec"], _rec["simp"]
+
+
+def run_ops(ops):
     """-> ([(bucket, detail)], sim)"""
-    sim = Sim(expr_simp=simp)
+    recorder()
+    sim = Sim()
     out = []
     try:
         for op in ops:
@@ -676,24 +681,47 @@ def run_ops(ops, simp=None):
     return list(sim.soft.items()) + out, sim
 
 
+def simplifier_rule(ops):
+    """Re-run the history with a cold simplifier cache, logging every rewrite: a rewrite step whose two sides
+    evaluate differently under one of the valuations is a simplifier defect -> 'rule:shape', else None.
+    (The store itself relies on the simplifier, so 'passes with a pass-free simplifier' proves nothing here.)"""
+    from vlib import simplab
+    rec, simp = recorder()
+    simp.cache.clear()
+    rec.reset()
+    rec.enabled = True
+    try:
+        _, sim = run_ops(ops)
+    finally:
+        rec.enabled = False
+    steps = list(rec.steps)
+    rec.reset()
+    if sim.engine is None:
+        return None
+    for k in range(NVAL):
+        try:
+            r = simplab.attribute(steps, sim.env_init(k))
+        except Exception:
+            r = None
+        if r:
+            return r
+    return None
+
+
 def judge(ops):
-    """-> ([(bucket, detail)], sim); value discrepancies that vanish when the engine is given a pass-free
-    simplifier are re-bucketed as via-simplifier:..."""
+    """-> ([(bucket, detail)], sim); value discrepancies caused by a value-changing rewrite of the simplifier
+    are re-bucketed as via-simplifier:rule:..."""
     fails, sim = run_ops(ops)
     if not fails:
         return fails, sim
     out = []
-    free = None
+    rule = False
     for bucket, detail in fails:
-        if bucket.startswith(("read", "export-value", "exception")):
-            # presence / deletion verdicts do not depend on expression values: no attribution run for them
-            if free is None:
-                try:
-                    free = set(b for b, _ in run_ops(ops, passfree_simp())[0])
-                except Exception:
-                    free = set([bucket])
-            if not free:
-                bucket = "via-simplifier:" + bucket
+        if bucket.startswith(("read", "export-value")):
+            if rule is False:
+                rule = simplifier_rule(ops)
+            if rule:
+                bucket = "via-simplifier:rule:%s:%s" % (rule, bucket.split(":")[0])
         out.append((bucket, detail))
     return out, sim
 
@@ -701,13 +729,15 @@ def judge(ops):
 class C13(Check):
     pid = "C13"
     rule = ("Hypothesis histories: address size 16/32/64 (msp430/x86_32/x86_64 lifter) then 1..30 ops among write "
-            "(6 documented entry points; value = int, identifier, slice, reads of current memory, compositions; "
+            "(6 documented entry points; value = int, identifier, slice, reads of current memory, compositions, the "
+            "previous value again, a read through a pointer of another width; "
             "pointer written in 5 syntactic forms), read (5 entry points), del, delete_partial, del_mem_above_stack, "
             "containment, export/import (get_state/set_state, .state, constructor, symbols.copy, SymbolMngr(init)); "
             "addresses = window (integer base at 0 and 0x1000, a, a+2^(n-1), b, a+b, c) + delta in -14..14, widths "
             "1..8 bytes; after each mutation every byte of every touched window and wide reads around the cell are "
             "compared with a byte model under 3 valuations (hash memory for untouched cells). Non-trivial: history "
-            "with a partially overlapping write or a wrap-around access to stored bytes; distinct by op list.")
+            "with a partially overlapping write or a wrap-around access to stored bytes; distinct by op list. A wrong "
+            "answer of a query (read, containment) is recorded and the history goes on.")
     assumptions = ["memory is little-endian and byte aligned (documented limits of MemArray)",
                    "pointers given to the non-evaluating entry points (symbols.write, mem_write, ...) are in the "
                    "engine's canonical base+int form; other forms only go through the evaluating entry points",
